@@ -59,7 +59,7 @@ func racepassMain(tier string) {
 				return "ERR"
 			}
 			c := pj.Clone(nil)
-			if it, e := navigate(c, vpath{0, 0}, 3); e == nil {
+			if it, e := navigate(c, vpath{0, 0}, 1); e == nil {
 				if it.Type() == simdjson.TypeArray || it.Type() == simdjson.TypeObject {
 					it.SetNull()
 				} else {
